@@ -55,3 +55,25 @@ def features(binary, workdir, tier, seed):
                 (d / "main.ms").write_text(render.program(json.loads(json.dumps(c["prog"]["body"]))))
                 out.append(d / "main.ms")
     return out
+
+
+def faults(workdir):
+    """The programs of the fault catalogue (GenFault.tla): every ill-typed program and its well-typed twin, each in
+    a directory of its own.  An ill-typed program the compiler (wrongly) accepts has bytecode like any other, and
+    C09 explores it: a missing return value or a surplus argument that slipped through typing is an operand-shape
+    defect of the emitted code."""
+    from . import gen
+    workdir = Path(workdir)
+    workdir.mkdir(parents=True, exist_ok=True)
+    cases, _ = gen.run_generator("GenFault", workdir / "g_fault")
+    out = []
+    for c in cases:
+        for side in ("bad", "good"):
+            d = workdir / "p" / c["id"].replace("/", "_").replace(" ", "_") / side
+            d.mkdir(parents=True, exist_ok=True)
+            for n, lines in c[side].items():
+                if lines:
+                    (d / f"{n}.ms").write_text("\n".join(lines) + "\n")
+            if (d / "main.ms").exists():
+                out.append(d / "main.ms")
+    return out
